@@ -226,3 +226,38 @@ pub fn modsoup(g: &mut Gen) -> String {
     s.push_str(&format!("fn dsp() {{ {} }}\n", expr(g)));
     s
 }
+
+/// Scheduler programs whose tasks update one shared global non-commutatively: several tasks due at
+/// the same sample, some of which re-arm themselves.  The order in which equal-time tasks fire is
+/// observable in dsp's output.
+pub fn schedsoup(g: &mut Gen, far_rearm: bool) -> String {
+    let nt = g.int(2, 6) as usize;
+    let mut s = String::from("let x = 1.0\n");
+    let names: Vec<String> = (0..nt).map(|i| format!("t{}", (b'a' + i as u8) as char)).collect();
+    for n in &names {
+        let upd = match g.below(5) {
+            0 => format!("x = x + {}.0", g.int(1, 9)),
+            1 => format!("x = x * {}.0", g.int(2, 3)),
+            2 => format!("x = {}.0 - x", g.int(1, 9)),
+            3 => format!("x = x * 0.5 + {}.0", g.int(1, 9)),
+            _ => format!("x = x * x * 0.01 + {}.0", g.int(1, 5)),
+        };
+        s.push_str(&format!("fn {n}(){{\n    {upd}\n"));
+        if g.bool(1, 3) {
+            // `far_rearm`: the re-armed task lies beyond every run length — it is pushed while its
+            // equal-time siblings are still queued, but never fires (a task created during a tick that
+            // fires later is a recorded WASM finding)
+            let d = g.int(1, 4);
+            s.push_str(&format!("    {n}@(now+{}.0)\n", if far_rearm { 100 + d } else { d }));
+        }
+        s.push_str("}\n");
+    }
+    // initial times from a small pool: equal times are the rule
+    let base = g.int(1, 3);
+    for n in &names {
+        let t = if g.bool(2, 3) { base } else { g.int(1, 5) };
+        s.push_str(&format!("{n}@{t}.0\n"));
+    }
+    s.push_str("fn dsp(){\n    x\n}\n");
+    s
+}
